@@ -458,6 +458,7 @@ package moss
 //@   ensures @fresh result != nil && fresh(result)
 //@   ensures @zeroMeansEmpty result.CurSegments == 0 ==> treeEmpty(ss)
 //@   ensures @counts result.CurSegments >= len(ss.a)
+//@   ensures @assume_fits result.CurOps <= 1152921504606846976
 //@   loop 1: modifies rv.CurOps, rv.CurBytes
 //@   loop 1: invariant true
 //@   loop 2: modifies rv.CurOps, rv.CurBytes, rv.CurSegments
@@ -544,21 +545,30 @@ package moss
 //@   modifies *
 //@   ensures @footerKept s.footer == old(s.footer)
 
+// Ghost state for the reclamation legs of C06/C07/C15: the file most recently
+// scheduled for removal (set, by assumption, only by removeFileOnClose).
+//@ ghost var doomed *FileRef
+
 //@ func (s *Store) startFileLOCKED() (*FileRef, File, error)
-//@   props C18 C06
+//@   props C18 C06 C07 C15
 //@   attr obligations call-requires ensures
-//@   attr only-labels footerKept notReadOnly readOnlyFlag
+//@   attr only-labels footerKept notReadOnly readOnlyFlag fresh doomedKept nilOnErr
 //@   requires @notReadOnly !readOnlyMode()
 //@   modifies *
 //@   ensures @footerKept s.footer == old(s.footer)
+//@   ensures @fresh r2 == nil ==> r0 != nil && fresh(r0)
+//@   ensures @nilOnErr r2 != nil ==> r0 == nil
+//@   ensures @doomedKept doomed == old(doomed)
 
 //@ func (s *Store) startOrReuseFile() (fref *FileRef, file File, err error)
-//@   props C18 C06
+//@   props C18 C06 C07 C15
 //@   attr obligations call-requires ensures
-//@   attr only-labels footerKept notReadOnly readOnlyFlag
+//@   attr only-labels footerKept notReadOnly readOnlyFlag doomedKept nilOnErr
 //@   requires @notReadOnly !readOnlyMode()
 //@   modifies *
 //@   ensures @footerKept s.footer == old(s.footer)
+//@   ensures @doomedKept doomed == old(doomed)
+//@   ensures @nilOnErr err != nil ==> fref == nil
 
 //@ func (s *Store) removeFileOnClose(fref *FileRef) (os.FileInfo, error)
 //@   props C18 C06
@@ -567,6 +577,7 @@ package moss
 //@   requires @notReadOnly !readOnlyMode()
 //@   modifies *
 //@   ensures @footerKept s.footer == old(s.footer)
+//@   ensures @assume_doomed doomed == fref
 
 //@ func (s *Store) removeFileOnClose$1()
 //@   props C18
@@ -583,13 +594,18 @@ package moss
 //@   requires @notReadOnly !readOnlyMode()
 //@   modifies *
 
+// A failed round never schedules a file for removal that existed before it
+// (for a partial compaction the file it writes to is the live data file);
+// a failed full compaction schedules the file it started for removal.
 //@ func (s *Store) compact(footer *Footer, partialCompactStart int, higher Snapshot, persistOptions StorePersistOptions) error
-//@   props C18 C06
+//@   props C18 C06 C07 C15
 //@   attr obligations call-requires ensures
-//@   attr only-labels unpublished notReadOnly readOnlyFlag
+//@   attr only-labels unpublished notReadOnly readOnlyFlag liveKept cleanup
 //@   requires @notReadOnly !readOnlyMode()
 //@   modifies *
 //@   ensures @unpublished result != nil ==> s.footer == old(s.footer)
+//@   ensures @liveKept result != nil ==> doomed == old(doomed) || fresh(doomed)
+//@   ensures @cleanup result != nil && partialCompactStart == 0 && local(frefCompact) != nil ==> doomed == local(frefCompact)
 
 //@ func (s *Store) compactMaybe(higher Snapshot, persistOptions StorePersistOptions) (bool, error)
 //@   dead footer, err := s.snapshot()
@@ -820,9 +836,10 @@ package moss
 // The footer written by a compaction belongs to the incarnation of the stack
 // it was built from and has exactly that stack's children.
 //@ func (s *Store) writeSegments(newSS, base *segmentStack, frefCompact *FileRef, fileCompact File, includeDeletes bool, syncAfterBytes int) (compactFooter *Footer, err error)
-//@   props C07 C11 C04
-//@   attr obligations ensures
-//@   requires newSS != nil
+//@   props C07 C11 C04 C05
+//@   attr obligations ensures call-requires
+//@   attr only-labels incar oneSegment appendOnly
+//@   requires newSS != nil && treeOK(newSS) && StorePageSize > 0 && StorePageSize <= 1073741824
 //@   modifies s.totCompactionBeforeBytes
 //@   ensures @incar err == nil ==> compactFooter != nil && compactFooter.incarNum == newSS.incarNum
 //@   ensures @oneSegment err == nil ==> len(compactFooter.SegmentLocs) == 1
@@ -1082,6 +1099,15 @@ package moss
 // request fails (or is short), the status it hands back next on resCh is an
 // error.  (After an error the owner sends no further request: Flush returns
 // b.err before sending.)
+// A section of a compaction is laid out at or beyond the end of the file
+// (append-only: what earlier rounds wrote, in particular the last footer, is
+// never overwritten).
+//@ func newBufferedSectionWriter(w io.WriterAt, begPos, maxBytes int64, bufSize int, s statsReporter) *bufferedSectionWriter
+//@   props C05 C06
+//@   attr obligations ensures
+//@   requires @appendOnly begPos >= knownSize
+//@   ensures result != nil && fresh(result)
+
 //@ func newBufferedSectionWriter$1()
 //@   props C06 C07
 //@   attr obligations inv-entry inv-preserve
@@ -1315,7 +1341,8 @@ package moss
 // that is still being persisted is never replaced.
 //@ func (m *collection) mergerNotifyPersister()
 //@   props C13 C16 C04 C01
-//@   attr obligations lock-inv region guarded lock
+//@   attr obligations lock-inv region guarded lock wait
+//@   attr waits-observe-stop stopCh
 //@   requires m != nil && m.options != nil && !held(m.m) && m.stats != nil
 //@   modifies *
 //@   unlock 1: @handover atAcquire(m.stackDirtyBase) == nil && atAcquire(m.stackDirtyMid) != nil ==>
